@@ -144,6 +144,46 @@ def info_json(res: runner.Result) -> T.Optional[dict]:
     return None
 
 
+def introspect_ids(d: str) -> T.Optional[T.Dict[str, T.Tuple[str, str]]]:
+    """Target IDs as the real `meson introspect --targets <dir>/meson.build` reports them: id -> (build file relative
+    to the source root, name).  The ID is an opaque handle for the check; which build file it stands for is taken from
+    the documented `defined_in` field."""
+    res = runner.meson(['introspect', '--targets', os.path.join(d, 'meson.build')], cwd=os.path.dirname(d), timeout=60)
+    if res.rc != 0:
+        return None
+    i = res.out.find('[')
+    try:
+        data = json.loads(res.out[i:res.out.rfind(']') + 1]) if i >= 0 else None
+    except ValueError:
+        return None
+    if not isinstance(data, list):
+        return None
+    out: T.Dict[str, T.Tuple[str, str]] = {}
+    for t in data:
+        try:
+            out[t['id']] = (os.path.relpath(os.path.realpath(t['defined_in']), os.path.realpath(d)), t['name'])
+        except (KeyError, TypeError):
+            return None
+    return out
+
+
+ID_PLACEHOLDER = '@ID|'
+
+
+def resolve_ids(cmd: dict, ids: T.Mapping[str, T.Tuple[str, str]]) -> T.Optional[dict]:
+    """Replace '@ID|<build file>|<name>' in the addressing field of a planned command by the ID meson gave that target."""
+    out = dict(cmd)
+    for fld in ('target', 'id'):
+        v = out.get(fld)
+        if isinstance(v, str) and v.startswith(ID_PLACEHOLDER):
+            _, f, nm = v.split('|', 2)
+            hit = [k for k, (kf, kn) in ids.items() if kf == f and kn == nm]
+            if len(hit) != 1:
+                return None
+            out[fld] = hit[0]
+    return out
+
+
 # ------------------------------------------------------------------------------------------------
 # the oracle for one step
 
@@ -861,7 +901,12 @@ def check_info(st: Step, m: M.Model, rec: M.CallRec, info: T.Optional[dict], wit
     if not info or 'target' not in info:
         st.failed('value', 'info-missing', witness({'info': info}), [])
         return
-    ents = [v for v in info['target'].values() if v.get('name') == rec.name]
+    ident = witness({}).get('cmd', {}).get('target')
+    if ident in m.target_ids and ident in info['target']:
+        st.count('oracle:info-addressed-by-id')
+        ents = [info['target'][ident]] if info['target'][ident].get('name') == rec.name else []
+    else:
+        ents = [v for v in info['target'].values() if v.get('name') == rec.name]
     if len(ents) != 1:
         st.failed('value', 'info-missing', witness({'info': info}), [])
         return
@@ -904,7 +949,8 @@ def check_kwargs_info(st: Step, rec: M.CallRec, cmd: dict, info: T.Optional[dict
 
 def run_sequence(root: str, tag: str, files: T.Dict[str, str], pool: T.Sequence[str], rng: random.Random,
                  planned: T.Optional[T.List[dict]], maxlen: int, inside_exist: bool, force_via: T.Optional[str] = None,
-                 do_batch: bool = True, configs: T.Optional[T.Sequence[T.Mapping[str, T.Any]]] = None) -> dict:
+                 do_batch: bool = True, configs: T.Optional[T.Sequence[T.Mapping[str, T.Any]]] = None,
+                 with_ids: bool = False) -> dict:
     """configs: the configurations (values of get_option()) the project is judged in; the first one is the primary
     configuration (commands are generated from its model), every step is judged again in each of the others."""
     out: T.Dict[str, T.Any] = {'counts': {}, 'violations': [], 'samples': [], 'cases': [], 'notes': []}
@@ -916,11 +962,32 @@ def run_sequence(root: str, tag: str, files: T.Dict[str, str], pool: T.Sequence[
     shutil.rmtree(d, ignore_errors=True)
     runner.write_tree(d, files)
     state = read_tree(d)
-    model = M.Model(state, cfgs[0])
+    ids: T.Dict[str, T.Tuple[str, str]] = {}
+
+    def mk_model(fs: T.Mapping[str, str], cfg: T.Optional[T.Mapping[str, T.Any]] = None) -> M.Model:
+        mm = M.Model(fs, cfg)
+        mm.target_ids = ids
+        return mm
+    model = mk_model(state, cfgs[0])
     if not model.ok:
         count('skipped:reference-cannot-evaluate-project')
         shutil.rmtree(d, ignore_errors=True)
         return out
+    if with_ids:
+        got_ids = introspect_ids(d)
+        if got_ids is None:
+            count('skipped:introspect-gave-no-target-ids')
+            shutil.rmtree(d, ignore_errors=True)
+            return out
+        ids.update(got_ids)
+        count('monitor:target-ids-from-introspect', len(ids))
+        if planned:
+            rp = [resolve_ids(c, ids) for c in planned]
+            if any(c is None for c in rp):
+                count('skipped:planned-target-has-no-unique-id')
+                shutil.rmtree(d, ignore_errors=True)
+                return out
+            planned = T.cast(T.List[dict], rp)
     done: T.List[T.Tuple[dict, str]] = []
     clean = True
     refused_any = False
@@ -949,7 +1016,7 @@ def run_sequence(root: str, tag: str, files: T.Dict[str, str], pool: T.Sequence[
         if st.fail is None and st.outcome in ('applied', 'info', 'refused:documented'):
             # the same step, seen from every other configuration of the project
             for alt in cfgs[1:]:
-                malt = M.Model(model.files, alt)
+                malt = mk_model(model.files, alt)
                 if not malt.ok:
                     count('skipped:alternate-configuration-does-not-evaluate')
                     continue
@@ -992,7 +1059,7 @@ def run_sequence(root: str, tag: str, files: T.Dict[str, str], pool: T.Sequence[
         if st.fail is not None:
             out['violations'].append({'mechanism': st.fail['mechanism'], 'oracle': st.fail['oracle'],
                                       'explanations': st.fail['explanations'],
-                                      'files': dict(model.files), 'steps': [cmd], 'via': via, 'inside_exist': inside_exist,
+                                      'files': dict(model.files), 'steps': [cmd], 'via': via, 'inside_exist': inside_exist, 'with_ids': with_ids,
                                       'configs': [config_of_failure],
                                       'original_files': files, 'earlier_steps': [c for c, _ in done], **st.fail['detail']})
             clean = False
@@ -1002,7 +1069,7 @@ def run_sequence(root: str, tag: str, files: T.Dict[str, str], pool: T.Sequence[
         done.append((cmd, via))
         if new_state != state:
             state = new_state
-            model = M.Model(state, cfgs[0])
+            model = mk_model(state, cfgs[0])
             if not model.ok:
                 clean = False
                 break
@@ -1019,13 +1086,13 @@ def run_sequence(root: str, tag: str, files: T.Dict[str, str], pool: T.Sequence[
                 if ist.fail is not None:
                     out['violations'].append({'mechanism': ist.fail['mechanism'], 'oracle': ist.fail['oracle'],
                                               'explanations': ist.fail['explanations'], 'files': dict(model.files),
-                                              'steps': [icmd], 'via': 'json', 'inside_exist': inside_exist,
+                                              'steps': [icmd], 'via': 'json', 'inside_exist': inside_exist, 'with_ids': with_ids,
                                               'original_files': files, 'earlier_steps': [c for c, _ in done], **ist.fail['detail']})
                     clean = False
                     break
     # ---- round-trip laws, stated on the end state ---------------------------------------------------
     if planned and planned[0].get('law') and clean and len(done) == len(planned) and not refused_any:
-        m0 = M.Model(read_tree_from(files), cfgs[0])
+        m0 = mk_model(read_tree_from(files), cfgs[0])
         count('oracle:roundtrip-end-state')
         r0 = m0.find_target(planned[0]['target'])
         r1 = model.find_target(planned[0]['target'])
@@ -1034,7 +1101,7 @@ def run_sequence(root: str, tag: str, files: T.Dict[str, str], pool: T.Sequence[
             a1 = sorted(json.dumps(x, sort_keys=True) for x in model.sources(r1[0]))
             if a0 != a1:
                 out['violations'].append({'mechanism': 'roundtrip-law-broken', 'oracle': 'roundtrip', 'files': files,
-                                          'steps': planned, 'via': 'steps', 'inside_exist': inside_exist,
+                                          'steps': planned, 'via': 'steps', 'inside_exist': inside_exist, 'with_ids': with_ids,
                                           'before': a0, 'after': a1})
     # ---- (e) batch == stepwise ---------------------------------------------------------------------
     if do_batch and clean and len(done) >= 2:
@@ -1336,9 +1403,107 @@ def shared_probes(part: int, parts: int) -> T.List[T.Tuple]:
     return P
 
 
-def run_probes(root: str, which: T.Optional[T.Tuple[int, int]] = None) -> dict:
+# build files produced from ONE template: the same bytes -- hence the same statements at the same line/column -- in
+# several directories of one project.  name -> (template text, has extra_files)
+TWIN_TEMPLATES: T.Dict[str, T.Tuple[str, bool]] = {
+    'list-in-variable': ("# generated from template\nsrcs = ['main.c', 'util.c']\ndemo = executable('demo', srcs, install : not (a and b), c_args : ['-DN=' + (n + 1).to_string()])\n", False),
+    'inline': ("# generated from template\ndemo = executable('demo', 'main.c', 'util.c', install : 2 * (3 / 2) == n - 1)\n", False),
+    'files-in-variable': ("srcs = files('main.c', 'util.c')\nhdrs = ['demo.h']\nexecutable('demo', srcs, extra_files : hdrs, install_dir : 'it\\'s')\n", True),
+    'plus-assign': ("srcs = ['main.c']\nsrcs += ['util.c']\nexecutable('demo', srcs, pie : a or b)\n", False),
+    'sources-keyword': ("srcs = ['util.c']\nlibrary('demo', 'main.c', sources : srcs, extra_files : ['demo.h', 'more.h'])\n", True),
+    'variable-of-variable': ("base = ['main.c']\nsrcs = base + ['util.c']\nexecutable('demo', srcs)\nlast = 1\n", False),
+}
+# name -> directories that get the template ('' = the root build file itself, with the template in the same lines)
+TWIN_LAYOUTS: T.Dict[str, T.List[str]] = {
+    'two-dirs': ['examples/one', 'examples/two'],
+    'three-dirs': ['t/alpha', 't/beta', 't/gamma'],
+    'nested-dirs': ['pkg', 'pkg/inner'],
+    'root-and-subdir': ['', 'sub'],
+}
+
+
+def twin_project(template: str, layout: str) -> T.Tuple[T.Dict[str, str], T.List[str]]:
+    body, _ = TWIN_TEMPLATES[template]
+    dirs = TWIN_LAYOUTS[layout]
+    head = "project('p')\na = true\nb = false\nn = 3\n"
+    files: T.Dict[str, str] = {}
+    if layout == 'root-and-subdir':
+        # the root file carries its own four head lines; the subdirectory's file has four comment lines of the same
+        # lengths in front, so that the template statements sit at identical positions in both
+        files['meson.build'] = head + body + "subdir('sub')\n"
+        files['sub/meson.build'] = ''.join('#' + ' ' * (len(x) - 1) + '\n' for x in head.split('\n')[:-1]) + body
+    elif layout == 'nested-dirs':
+        files['meson.build'] = head + "subdir('pkg')\n"
+        files['pkg/meson.build'] = body + "subdir('inner')\n"
+        files['pkg/inner/meson.build'] = body
+    else:
+        files['meson.build'] = head + ''.join(f"subdir('{x}')\n" for x in dirs) + "end = 1\n"
+        for x in dirs:
+            files[os.path.join(x, 'meson.build')] = body
+    return files, dirs
+
+
+def twin_probes(part: int, parts: int, everything: bool) -> T.List[T.Tuple]:
+    """Template-generated build files in several directories; every command addresses ONE of the equally named targets by
+    the ID meson gives it: the edit has to land in that directory's build file, every other build file stays as it is
+    (locality oracle over all files), the other twins keep their sources (other-calls oracle + `info` of a twin), `info`
+    of the addressed target shows the new value.  Same tuple format as probes()."""
+    P: T.List[T.Tuple] = []
+    j = 0
+    for ti, (template, (_body, has_extra)) in enumerate(TWIN_TEMPLATES.items()):
+        for li, (layout, dirs) in enumerate(TWIN_LAYOUTS.items()):
+            files, _ = twin_project(template, layout)
+
+            def ident(k: int) -> str:
+                return ID_PLACEHOLDER + os.path.join(dirs[k], 'meson.build') + '|demo'
+
+            def tcmd(k: int, opn: str, *names: str, **more: T.Any) -> dict:
+                c = {'type': 'target', 'target': ident(k), 'operation': opn, 'sources': [os.path.join(dirs[k], x) for x in names]}
+                c.update(more)
+                return c
+
+            def kw(k: int, opn: str, **kwargs: T.Any) -> dict:
+                return {'type': 'kwargs', 'function': 'target', 'id': ident(k), 'operation': opn, 'kwargs': kwargs}
+            for k in range(len(dirs)):
+                other = (k + 1) % len(dirs)
+                seqs: T.List[T.Tuple[str, T.List[dict]]] = [
+                    ('add-info', [tcmd(k, 'src_add', 'new.c'), tcmd(k, 'info'), tcmd(other, 'info')]),
+                    ('add-then-rm', [tcmd(k, 'src_add', 'new.c', law='add-then-rm'), tcmd(k, 'src_rm', 'new.c', law='add-then-rm'), tcmd(other, 'info')]),
+                    ('rm-then-add', [tcmd(k, 'src_rm', 'util.c', law='rm-then-add'), tcmd(k, 'src_add', 'util.c', law='rm-then-add'), tcmd(k, 'info')]),
+                    ('kwargs', [kw(k, 'set', build_by_default=False), kw(other, 'set', gui_app=True), kw(k, 'delete', build_by_default=None)]),
+                    ('rm-target', [tcmd(k, 'target_rm'), tcmd(other, 'info')]),
+                ]
+                if has_extra:
+                    seqs.append(('extra-files', [tcmd(k, 'extra_files_add', 'new.h'), tcmd(k, 'extra_files_rm', 'demo.h'), tcmd(k, 'info')]))
+                for si, (seq, cmds) in enumerate(seqs):
+                    j += 1
+                    # quick tier: the LAST twin of every template x layout pair is always addressed by an add + info, and a
+                    # rotating eighth of the other combinations is run; thorough: all of them
+                    if not everything and (ti * 5 + li * 3 + k * 2 + si) % 8 != 0 and not (seq == 'add-info' and k == len(dirs) - 1):
+                        continue
+                    if j % parts != part:
+                        continue
+                    for c in cmds:
+                        if c['operation'] == 'target_rm':
+                            c.pop('sources', None)
+                    P.append((f'twin:{template}:{layout}:{seq}:addressed-{k}', files, cmds, 'cli' if (j + k) % 2 else 'json', False))
+    return P
+
+
+def run_probes(root: str, which: T.Optional[T.Tuple[int, int]] = None, twins: bool = False, everything: bool = False) -> dict:
     out: T.Dict[str, T.Any] = {'counts': {}, 'violations': [], 'samples': [], 'cases': [], 'notes': []}
     rng = random.Random(1)
+    if which is not None and twins:
+        for name, files, cmds, via, inside in twin_probes(which[0], which[1], everything):
+            o = run_sequence(root, 'tprobe_' + re.sub(r'\W', '_', name), files, [], rng, cmds, 3, inside, force_via=via, do_batch=(via == 'json'),
+                             with_ids=True)
+            for v in o['violations']:
+                v['probe'] = name
+            merge(out, o)
+            out['counts']['probes:twin-directories'] = out['counts'].get('probes:twin-directories', 0) + 1
+            for k in ('twin-template:' + name.split(':')[1], 'twin-layout:' + name.split(':')[2], 'twin-sequence:' + name.split(':')[3]):
+                out['counts'][k] = out['counts'].get(k, 0) + 1
+        return out
     if which is not None:
         for name, files, cmds, via, inside in shared_probes(*which):
             o = run_sequence(root, 'sprobe_' + re.sub(r'\W', '_', name), files, [], rng, cmds, 3, inside, force_via=via, do_batch=False)
@@ -1364,6 +1529,7 @@ def probe_worker(root: str) -> dict:
 
 
 SHARED_PROBE_PARTS = 3
+TWIN_PROBE_PARTS = 3
 
 
 # ------------------------------------------------------------------------------------------------
@@ -1377,10 +1543,10 @@ def replay(chk: common.Check, path: str) -> int:
     via = w.get('via', 'json')
     if via == 'json-batch':
         o = run_sequence(root, 'replay', files, [], random.Random(0), w['steps'], 3, bool(w.get('inside_exist')), force_via='json',
-                         configs=w.get('configs'))
+                         configs=w.get('configs'), with_ids=bool(w.get('with_ids')))
     else:
         o = run_sequence(root, 'replay', files, [], random.Random(0), w['steps'], 3, bool(w.get('inside_exist')), force_via=via,
-                         do_batch=False, configs=w.get('configs'))
+                         do_batch=False, configs=w.get('configs'), with_ids=bool(w.get('with_ids')))
     if o['violations']:
         v = o['violations'][0]
         print(f'replay: still fails: mechanism={v["mechanism"]} oracle={v["oracle"]}')
@@ -1405,6 +1571,7 @@ def main() -> int:
     agg: T.Dict[str, T.Any] = {'counts': {}, 'violations': [], 'samples': [], 'cases': [], 'notes': []}
     feats: T.Dict[str, int] = {}
     results = common.pmap(_dispatch, [('probes', root)] + [('shared-probes', (root, k, SHARED_PROBE_PARTS)) for k in range(SHARED_PROBE_PARTS)]
+                          + [('twin-probes', (root, k, TWIN_PROBE_PARTS, not quick)) for k in range(TWIN_PROBE_PARTS)]
                           + [('job', j) for j in jobs], chk.jobs)
     for o in results:
         merge(agg, o)
@@ -1430,7 +1597,8 @@ def main() -> int:
                  'oracle:info', 'oracle:kwargs-info', 'oracle:batch-equals-stepwise', 'oracle:value:src_add', 'oracle:value:src_rm',
                  'oracle:value:kwargs:set', 'oracle:value:kwargs:delete', 'oracle:value:default_options:set',
                  'oracle:roundtrip:add-then-rm', 'oracle:roundtrip:rm-then-add', 'oracle:roundtrip-end-state', 'probes',
-                 'probes:shared-through-indirection'):
+                 'probes:shared-through-indirection', 'probes:twin-directories', 'monitor:target-ids-from-introspect',
+                 'oracle:info-addressed-by-id'):
         chk.require(name, 1)
     chk.require('outcome:applied', 50 if quick else 1000)
     if agg['counts'].get('harness-error', 0):
@@ -1453,6 +1621,8 @@ def _dispatch(item: T.Tuple[str, T.Any]) -> dict:
         return probe_worker(arg)
     if kind == 'shared-probes':
         return run_probes(arg[0], (arg[1], arg[2]))
+    if kind == 'twin-probes':
+        return run_probes(arg[0], (arg[1], arg[2]), twins=True, everything=arg[3])
     return worker(arg)
 
 
